@@ -247,8 +247,8 @@ package queue
 //@   at entry ghost added = false
 //@   at entry ghost tried = false
 //@   at select#0 assume (res0 == -1 && selhassend(p.processorRunningCh) && cap(p.processorRunningCh) == 1) ==> p.tokfull
-//@   at select#0 assert [C06.process.slot] arg0 == p.processorRunningCh && selhassend(p.processorRunningCh)
-//@   at select#0 ghost got = (res0 == 0 && selchan == p.processorRunningCh && selsend)
+//@   at select#0 assert [C06.process.slot] selcases == 1 && selhassend(p.processorRunningCh)
+//@   at select#0 ghost got = (res0 >= 0 && selchan == p.processorRunningCh && selsend)
 //@   at select#0 ghost p.tokfull = got ? true : p.tokfull
 //@   at select#0 ghost p.serving = got ? true : p.serving
 //@   at call Add#0 ghost added = (arg1 == 1)
@@ -379,7 +379,7 @@ package queue
 //@   at call Sub#0 ghost gdl = res0
 //@   at before call execute#0 assert [C06.loop.due] gdl < 500000 && arg1 == call_Peek_0_result && nolocks()
 //@   at before call NewTimer#0 assert [C06.loop.timer] arg1 >= gdl && gdl >= 500000
-//@   at select#1 ghost fired = res0 == 0
+//@   at select#1 ghost fired = (res0 >= 0 && !selsend && selchan == call_C_0_result)
 //@   at before call execute#1 assert [C06.loop.fired] fired && gdl >= 500000 && arg1 == call_Peek_0_result && nolocks()
 // "Once Close returns no callback ... will run": every execute is preceded, in the same iteration, by the non-blocking
 // select that listens on stopCh and chose `default` -- i.e. (Go spec: default only if no case can proceed) the stop
